@@ -1,4 +1,4 @@
--- PINNED by bin/pin_tables: copy of Gen/Dispatch.lean as generated from /repo at 18263c5 — regenerate, do not edit
+-- PINNED by bin/pin_tables: copy of Gen/Dispatch.lean as generated from /repo at 7ba0a04 — regenerate, do not edit
 namespace Ggql.Pinned
 def dispatchOrder : List String := ["resolver", "any", "reflect"]
 def opFallbackAnyName : Bool := false
@@ -9,6 +9,7 @@ def dupScalarDropped : Bool := false
 def dirArgWrapperAccepted : Bool := false
 def descRaw : Bool := false
 def assureOnce : Bool := false
+def dupKeyOverwrites : Bool := false
 def unionFirstCome : Bool := false
 def ifaceNeedsBound : Bool := false
 def shallowRollback : Bool := false
@@ -23,4 +24,15 @@ def inputDefaultsRaw : Bool := true
 def listNotCoerced : Bool := false
 def symbolUnchecked : Bool := false
 def symbolBaseEnum : Bool := false
+/-- hashes of the functions that form, coerce and hand on argument values (strings and comments stripped) -/
+def argSkeleton : List (String × String) := [
+  ("Input.CoerceIn", "114c7466e8b9"),
+  ("List.CoerceIn", "342314fa8b37"),
+  ("NonNull.CoerceIn", "07c35bfdab4c"),
+  ("Root.formArgs", "4ce1628b3fc4"),
+  ("Root.formReflectArgs", "3966a01466f3"),
+  ("Root.replaceArgVars", "8e6170986780"),
+  ("Root.resolveField", "6c3ed99b6022"),
+  ("checkReflectArgs", "a983f6c0bc0d")
+]
 end Ggql.Pinned
